@@ -111,7 +111,12 @@ func encodeCmd(args []string) error {
 			stride = 160
 		}
 		off := rng.Intn(stride)
-		for k := off; k <= f.steps; k += stride {
+		for k := 0; k <= f.steps; k++ {
+			// always the first and last 96 buckets (steep toe of the pure power curves,
+			// shoulder near 1), the rest strided with a seeded phase
+			if k >= 96 && k <= f.steps-96 && (k-off)%stride != 0 {
+				continue
+			}
 			add(float32((float64(k) - 0.5) / float64(f.steps)))
 			add(float32((float64(k) + 0.5) / float64(f.steps)))
 			add(float32(float64(k) / float64(f.steps)))
